@@ -2145,3 +2145,606 @@ theorem fine_of_name (name : String) (r : PRule) (h : patternRuleByName name = s
   exact allPatternRules_fine _ hm
 
 end Harper.PatternRules
+
+namespace Harper.PatternRules
+open Harper Harper.Chunks Harper.Rules Harper.Leaves
+
+/-! ## never out of fuel: `match_to_lint` as data, and `run_on_chunk` around it (w26) -/
+
+/-- a rule's own computation never reports a hang -/
+def CustomNF (f : CustomFn) : Prop := ∀ env src l, f env src l ≠ .error .outOfFuel
+
+/-- the only step that is not interpreted is `Step.custom`: an arbitrary function -/
+def Step.NoFuel : Step → Prop
+  | .custom _ f => CustomNF f
+  | _ => True
+
+/-- every custom step of the spec never reports a hang (nothing is asked of the other steps, the selections, the
+suggestions or the message argument) -/
+def Spec.NoFuel (s : Spec) : Prop := (∀ x ∈ s.before, x.NoFuel) ∧ (∀ x ∈ s.after, x.NoFuel)
+
+theorem Sel.eval_nf (s : Sel) (l : List Tok) : s.eval l ≠ .error .outOfFuel := by
+  intro h
+  cases s <;> simp only [Sel.eval] at h
+  · cases h
+  · split at h <;> cases h
+  · cases h
+  · cases h
+  · split at h
+    · rename_i e hc; cases h; exact sliceE_nf _ _ _ hc
+    · cases h
+  · split at h
+    · cases h
+    · split at h <;> cases h
+  · split at h
+    · rename_i e hc; cases h; exact sliceE_nf _ _ _ hc
+    · cases h
+
+theorem Txt.eval_nf (src : List Char) (l : List Tok) (vars : List (List Char)) : ∀ t : Txt, t.eval src l vars ≠ .error .outOfFuel
+  | .lit _ => by intro h; cases h
+  | .sel s => by
+    intro h
+    simp only [Txt.eval] at h
+    split at h
+    · rename_i e hc; cases h; exact Sel.eval_nf _ _ hc
+    · cases h
+    · split at h
+      · rename_i e hc; cases h; exact getContent_nf _ _ hc
+      · cases h
+  | .var _ => by intro h; cases h
+  | .cat a b => by
+    intro h
+    simp only [Txt.eval] at h
+    split at h
+    · rename_i e hc; cases h; exact Txt.eval_nf src l vars a hc
+    · cases h
+    · split at h
+      · rename_i e hc; cases h; exact Txt.eval_nf src l vars b hc
+      · cases h
+      · cases h
+
+theorem SuggSpec.eval_nf (env : Env) (src : List Char) (l : List Tok) (vars : List (List Char)) (s : SuggSpec) :
+    s.eval env src l vars ≠ .error .outOfFuel := by
+  intro h
+  cases s <;> simp only [SuggSpec.eval] at h
+  · split at h
+    · rename_i e hc; cases h; exact Txt.eval_nf _ _ _ _ hc
+    · cases h
+    · cases h
+  · split at h
+    · rename_i e hc; cases h; exact Txt.eval_nf _ _ _ _ hc
+    · cases h
+    · split at h
+      · rename_i e hc; cases h; exact Txt.eval_nf _ _ _ _ hc
+      · cases h
+      · cases h
+  · cases h
+
+theorem evalSuggs_nf (env : Env) (src : List Char) (l : List Tok) (vars : List (List Char)) : ∀ ss : List SuggSpec,
+    evalSuggs env src l vars ss ≠ .error .outOfFuel
+  | [] => by intro h; cases h
+  | s :: ss => by
+    intro h
+    simp only [evalSuggs] at h
+    split at h
+    · rename_i e hc; cases h; exact SuggSpec.eval_nf _ _ _ _ _ hc
+    · cases h
+    · split at h
+      · rename_i e hc; cases h; exact evalSuggs_nf env src l vars ss hc
+      · cases h
+      · cases h
+
+theorem Step.run_nf (env : Env) (src : List Char) (l : List Tok) (vars : List (List Char)) (s : Step) (hs : s.NoFuel) :
+    s.run env src l vars ≠ .error .outOfFuel := by
+  intro h
+  cases s with
+  | get i => cases h
+  | numberAt i => simp only [Step.run] at h; split at h <;> cases h
+  | bind t =>
+    simp only [Step.run] at h
+    split at h
+    · rename_i e hc; cases h; exact Txt.eval_nf _ _ _ _ hc
+    · cases h
+    · cases h
+  | custom need f =>
+    simp only [Step.run] at h
+    split at h
+    · rename_i e hc; cases h; exact (show CustomNF f from hs) _ _ _ hc
+    · cases h
+    · cases h
+
+theorem runSteps_nf (env : Env) (src : List Char) (l : List Tok) : ∀ (ss : List Step), (∀ s ∈ ss, s.NoFuel) →
+    ∀ vars, runSteps env src l ss vars ≠ .error .outOfFuel
+  | [], _, _ => by intro h; cases h
+  | s :: ss, hg, vars => by
+    intro h
+    simp only [runSteps] at h
+    split at h
+    · rename_i e hc; cases h; exact Step.run_nf env src l vars s (hg s (by simp)) hc
+    · cases h
+    · exact runSteps_nf env src l ss (fun x hx => hg x (List.mem_cons_of_mem _ hx)) _ h
+
+theorem ArgSpec.eval_nf (l : List Tok) (a : ArgSpec) : a.eval l ≠ .error .outOfFuel := by
+  intro h
+  cases a <;> simp only [ArgSpec.eval] at h
+  · cases h
+  · split at h <;> cases h
+  · split at h
+    · cases h
+    · split at h <;> cases h
+
+/-- **`match_to_lint` of any spec never reports a hang, unless one of its own computations does** -/
+theorem Spec.run_nf (env : Env) (s : Spec) (hs : s.NoFuel) (src : List Char) (l : List Tok) : s.run env src l ≠ .error .outOfFuel := by
+  intro h
+  simp only [Spec.run] at h
+  split at h
+  · rename_i e hc; cases h; exact runSteps_nf env src l _ hs.1 _ hc
+  · cases h
+  · split at h
+    · rename_i e hc; cases h; exact Sel.eval_nf _ _ hc
+    · cases h
+    · split at h
+      · rename_i e hc; cases h; exact runSteps_nf env src l _ hs.2 _ hc
+      · cases h
+      · split at h
+        · rename_i e hc; cases h; exact evalSuggs_nf _ _ _ _ _ hc
+        · cases h
+        · split at h
+          · rename_i e hc; cases h; exact ArgSpec.eval_nf _ _ hc
+          · cases h
+
+theorem PRule.piece_nf (env : Env) (r : PRule) (hs : r.spec.NoFuel) (src : List Char) (chunk : List Tok) :
+    r.piece env src chunk ≠ .error .outOfFuel :=
+  runOnChunkGo_nf _ (matcher_nf env r.pat) _ src (Spec.run_nf env r.spec hs src) chunk 0
+
+theorem PRule.rule_nf (env : Env) (r : PRule) (hs : r.spec.NoFuel) (src : List Char) (toks : List Tok) :
+    r.rule env src toks ≠ .error .outOfFuel :=
+  collectE_nf _ _ fun chunk _ => PRule.piece_nf env r hs src chunk
+
+/-! the five computations of the shipped rules -/
+
+theorem backGuard_nf : CustomNF backGuard := by
+  intro env src l h
+  simp only [backGuard] at h
+  split at h
+  · cases h
+  · split at h
+    · rename_i e hc; cases h; exact wordSetAtom_nf _ _ _ hc
+    · cases h
+
+theorem piqueCorrect_nf : CustomNF piqueCorrect := by
+  intro env src l h
+  simp only [piqueCorrect] at h
+  split at h
+  · cases h
+  · split at h
+    · rename_i e hc; cases h; exact getContent_nf _ _ hc
+    · split at h <;> cases h
+
+theorem pronounGuard_nf : CustomNF pronounGuard := by
+  intro env src l h
+  simp only [pronounGuard] at h
+  split at h
+  · split at h
+    · split at h
+      · rename_i e hc; cases h; exact getContent_nf _ _ hc
+      · split at h
+        · rename_i e hc; cases h; exact getContent_nf _ _ hc
+        · repeat' split at h
+          all_goals cases h
+    · cases h
+  · cases h
+
+theorem initialismCorrection_nf : CustomNF initialismCorrection := by
+  intro env src l h
+  simp only [initialismCorrection] at h
+  split at h
+  · cases h
+  · split at h
+    · rename_i e hc; cases h; exact getContent_nf _ _ hc
+    · split at h <;> cases h
+
+theorem impliesPlurality_nf (env : Env) (src : List Char) (l : List Tok) : impliesPlurality env src l ≠ .error .outOfFuel := by
+  intro h
+  unfold impliesPlurality at h
+  split at h
+  · cases h
+  · split at h
+    · split at h
+      · cases h
+      · split at h
+        · cases h
+        · split at h
+          · rename_i e hc; cases h; exact getContent_nf _ _ hc
+          · cases h
+    · cases h
+    · cases h
+
+theorem timeExpansion_nf : CustomNF timeExpansion := by
+  intro env src l h
+  simp only [timeExpansion] at h
+  split at h
+  · cases h
+  · split at h
+    · rename_i e hc; cases h; exact impliesPlurality_nf _ _ _ hc
+    · split at h
+      · rename_i e hc; cases h; exact getContent_nf _ _ hc
+      · split at h <;> cases h
+
+theorem noFuel_of_noCustom (ss : List Step) (h : ss.all (fun s => !Step.isCustom s) = true) : ∀ x ∈ ss, x.NoFuel := by
+  intro x hx
+  have := List.all_eq_true.mp h x hx
+  cases x <;> first | trivial | simp [Step.isCustom] at this
+
+theorem noFuel_single (need : Nat) (f : CustomFn) (h : CustomNF f) : ∀ x ∈ [Step.custom need f], x.NoFuel := by
+  intro x hx
+  simp only [List.mem_singleton] at hx
+  subst hx
+  exact h
+
+/-- **every spec of the table is `NoFuel`** -/
+theorem allPatternRules_noFuel : ∀ x ∈ allPatternRules, x.2.spec.NoFuel := by
+  intro x hx
+  simp only [allPatternRules, List.mem_cons, List.mem_nil_iff, or_false] at hx
+  rcases hx with rfl | rfl | rfl | rfl | rfl | rfl | rfl | rfl | rfl | rfl | rfl | rfl | rfl | rfl | rfl | rfl | rfl | rfl | rfl | rfl | rfl | rfl | rfl | rfl | rfl | rfl | rfl | rfl
+  · exact ⟨noFuel_single _ _ backGuard_nf, noFuel_of_noCustom _ rfl⟩
+  · exact ⟨noFuel_of_noCustom _ rfl, noFuel_of_noCustom _ rfl⟩
+  · exact ⟨noFuel_of_noCustom _ rfl, noFuel_of_noCustom _ rfl⟩
+  · exact ⟨noFuel_of_noCustom _ rfl, noFuel_of_noCustom _ rfl⟩
+  · exact ⟨noFuel_single _ _ piqueCorrect_nf, noFuel_of_noCustom _ rfl⟩
+  · exact ⟨noFuel_of_noCustom _ rfl, noFuel_of_noCustom _ rfl⟩
+  · exact ⟨noFuel_of_noCustom _ rfl, noFuel_of_noCustom _ rfl⟩
+  · exact ⟨noFuel_of_noCustom _ rfl, noFuel_of_noCustom _ rfl⟩
+  · exact ⟨noFuel_of_noCustom _ rfl, noFuel_of_noCustom _ rfl⟩
+  · exact ⟨noFuel_of_noCustom _ rfl, noFuel_of_noCustom _ rfl⟩
+  · exact ⟨noFuel_of_noCustom _ rfl, noFuel_of_noCustom _ rfl⟩
+  · exact ⟨noFuel_of_noCustom _ rfl, noFuel_of_noCustom _ rfl⟩
+  · exact ⟨noFuel_of_noCustom _ rfl, noFuel_of_noCustom _ rfl⟩
+  · exact ⟨noFuel_single _ _ pronounGuard_nf, noFuel_of_noCustom _ rfl⟩
+  · exact ⟨noFuel_single _ _ initialismCorrection_nf, noFuel_of_noCustom _ rfl⟩
+  · exact ⟨noFuel_of_noCustom _ rfl, noFuel_of_noCustom _ rfl⟩
+  · exact ⟨noFuel_of_noCustom _ rfl, noFuel_of_noCustom _ rfl⟩
+  · exact ⟨noFuel_of_noCustom _ rfl, noFuel_of_noCustom _ rfl⟩
+  · exact ⟨noFuel_of_noCustom _ rfl, noFuel_of_noCustom _ rfl⟩
+  · exact ⟨noFuel_of_noCustom _ rfl, noFuel_of_noCustom _ rfl⟩
+  · exact ⟨noFuel_of_noCustom _ rfl, noFuel_of_noCustom _ rfl⟩
+  · exact ⟨noFuel_of_noCustom _ rfl, noFuel_of_noCustom _ rfl⟩
+  · exact ⟨noFuel_of_noCustom _ rfl, noFuel_of_noCustom _ rfl⟩
+  · exact ⟨noFuel_of_noCustom _ rfl, noFuel_of_noCustom _ rfl⟩
+  · exact ⟨noFuel_single _ _ timeExpansion_nf, noFuel_of_noCustom _ rfl⟩
+  · exact ⟨noFuel_of_noCustom _ rfl, noFuel_of_noCustom _ rfl⟩
+  · exact ⟨noFuel_of_noCustom _ rfl, noFuel_of_noCustom _ rfl⟩
+  · exact ⟨noFuel_of_noCustom _ rfl, noFuel_of_noCustom _ rfl⟩
+
+theorem mem_of_name (name : String) (r : PRule) (h : patternRuleByName name = some r) : (name, r) ∈ allPatternRules := by
+  simp only [patternRuleByName] at h
+  generalize allPatternRules = tbl at h
+  induction tbl with
+  | nil => cases h
+  | cons a tbl ih =>
+    simp only [List.lookup] at h
+    split at h
+    · rename_i heq
+      simp only [Option.some.injEq] at h
+      subst h
+      have : name = a.1 := by simpa using heq
+      subst this
+      exact List.mem_cons_self
+    · exact List.mem_cons_of_mem _ (ih h)
+
+theorem noFuel_of_name (name : String) (r : PRule) (h : patternRuleByName name = some r) : r.spec.NoFuel :=
+  allPatternRules_noFuel _ (mem_of_name name r h)
+
+end Harper.PatternRules
+
+namespace Harper.PatternRules
+open Harper Harper.Chunks Harper.Rules Harper.Leaves
+
+/-! ## never out of fuel: the eleven hand-written rules of `Model/Rules.lean` (w26)
+
+(here and not in `Lemmas/Rules.lean` because `getContent_nf`, `collectE_nf`, `runOnChunkGo_nf` live in `Lemmas/Leaves.lean`,
+which imports `Lemmas/Rules.lean`) -/
+
+theorem spanNew_nf (s e : Nat) : Span.new s e ≠ .error .outOfFuel := by
+  intro h; unfold Span.new at h; split at h <;> cases h
+
+theorem coveringE_nf : ∀ ts : List Tok, coveringE ts ≠ .error .outOfFuel
+  | [] => by intro h; cases h
+  | t :: ts => by
+    intro h
+    simp only [coveringE] at h
+    split at h
+    · cases h
+    · split at h
+      · rename_i e hc; cases h; exact coveringE_nf ts hc
+      · cases h
+
+theorem longSentencesPiece_nf (src : List Char) (sent : List Tok) : longSentencesPiece src sent ≠ .error .outOfFuel := by
+  intro h
+  simp only [longSentencesPiece] at h
+  split at h
+  · split at h
+    · rename_i e hc; cases h; exact coveringE_nf _ hc
+    · split at h
+      · split at h
+        · rename_i e hc; cases h; exact spanNew_nf _ _ hc
+        · cases h
+      · cases h
+  · cases h
+
+theorem ruleLongSentences_nf (env : Env) (src : List Char) (toks : List Tok) : ruleLongSentences env src toks ≠ .error .outOfFuel :=
+  collectE_nf _ _ fun p _ => longSentencesPiece_nf src p
+
+theorem currencyPair_nf (env : Env) (src : List Char) (a b : Tok) : currencyPair env src a b ≠ .error .outOfFuel := by
+  intro h
+  simp only [currencyPair] at h
+  split at h
+  · cases h
+  · split at h
+    · cases h
+    · split at h
+      · cases h
+      · split at h
+        · cases h
+        · split at h
+          · cases h
+          · split at h
+            · rename_i e hc; cases h; exact spanNew_nf _ _ hc
+            · split at h
+              · rename_i e hc; cases h; exact getContent_nf _ _ hc
+              · split at h <;> cases h
+
+theorem currencyQuad_nf (env : Env) (src : List Char) (q : Tok × Tok × Tok × Tok) : currencyQuad env src q ≠ .error .outOfFuel := by
+  intro h
+  simp only [currencyQuad] at h
+  split at h
+  · cases h
+  · exact currencyPair_nf _ _ _ _ h
+
+theorem currencyChunk_nf (env : Env) (src : List Char) (chunk : List Tok) : currencyChunk env src chunk ≠ .error .outOfFuel := by
+  intro h
+  simp only [currencyChunk] at h
+  split at h
+  · rename_i e hc; cases h; exact collectE_nf _ _ (fun ab _ => currencyPair_nf env src ab.1 ab.2) hc
+  · split at h
+    · rename_i e hc; cases h; exact collectE_nf _ _ (fun q _ => currencyQuad_nf env src q) hc
+    · cases h
+
+theorem map_nf {α β : Type} (f : α → β) (x : Except Panic α) (hx : x ≠ .error .outOfFuel) : x.map f ≠ .error .outOfFuel := by
+  cases x with
+  | error e => intro h; simp only [Except.map] at h; cases h; exact hx rfl
+  | ok a => intro h; simp only [Except.map] at h; cases h
+
+theorem ruleCurrencyPlacement_nf (env : Env) (src : List Char) (toks : List Tok) :
+    ruleCurrencyPlacement env src toks ≠ .error .outOfFuel :=
+  map_nf _ _ (collectE_nf _ _ fun p _ => currencyChunk_nf env src p)
+
+theorem spacesPiece_nf (src : List Char) (sent : List Tok) : spacesPiece src sent ≠ .error .outOfFuel := by
+  intro h
+  simp only [spacesPiece] at h
+  split at h
+  · rename_i e hc
+    cases h
+    simp only [spacesTrailing] at hc
+    repeat' split at hc
+    all_goals cases hc
+  · cases h
+
+theorem ruleSpaces_nf (env : Env) (src : List Char) (toks : List Tok) : ruleSpaces env src toks ≠ .error .outOfFuel :=
+  collectE_nf _ _ fun p _ => spacesPiece_nf src p
+
+theorem repeatedPair_nf (env : Env) (src : List Char) (a : Tok) (w : Bool) (t : Tok) : repeatedPair env src a w t ≠ .error .outOfFuel := by
+  intro h
+  simp only [repeatedPair] at h
+  split at h
+  · rename_i e hc; cases h; exact getContent_nf _ _ hc
+  · split at h
+    · rename_i e hc; cases h; exact getContent_nf _ _ hc
+    · split at h
+      · split at h
+        · cases h
+        · split at h
+          · rename_i e hc; cases h; exact spanNew_nf _ _ hc
+          · cases h
+      · cases h
+
+theorem repeatedGo_nf (env : Env) (src : List Char) : ∀ (ts : List Tok) (prev : Option (Tok × Bool)),
+    repeatedGo env src prev ts ≠ .error .outOfFuel
+  | [], _ => by intro h; simp only [repeatedGo] at h; cases h
+  | t :: ts, prev => by
+    intro h
+    simp only [repeatedGo] at h
+    split at h
+    · split at h
+      · exact repeatedGo_nf env src ts _ h
+      · split at h
+        · rename_i e hc; cases h; exact repeatedPair_nf _ _ _ _ _ hc
+        · split at h
+          · rename_i e hc; cases h; exact repeatedGo_nf env src ts _ hc
+          · cases h
+    · exact repeatedGo_nf env src ts _ h
+
+theorem ruleRepeatedWords_nf (env : Env) (src : List Char) (toks : List Tok) : ruleRepeatedWords env src toks ≠ .error .outOfFuel :=
+  collectE_nf _ _ fun p _ => repeatedGo_nf env src p none
+
+theorem ellipsisTok_nf (src : List Char) (t : Tok) : ellipsisTok src t ≠ .error .outOfFuel := by
+  intro h
+  simp only [ellipsisTok] at h
+  split at h
+  · cases h
+  · split at h
+    · rename_i e hc; cases h; exact getContent_nf _ _ hc
+    · repeat' split at h
+      all_goals cases h
+
+theorem ruleEllipsisLength_nf (env : Env) (src : List Char) (toks : List Tok) : ruleEllipsisLength env src toks ≠ .error .outOfFuel :=
+  collectE_nf _ _ fun t _ => ellipsisTok_nf src t
+
+theorem numberSuffixCapTok_nf (env : Env) (src : List Char) (t : Tok) : numberSuffixCapTok env src t ≠ .error .outOfFuel := by
+  intro h
+  simp only [numberSuffixCapTok] at h
+  split at h
+  · cases h
+  · cases h
+  · split at h
+    · cases h
+    · split at h
+      · rename_i e hc; cases h; exact getContent_nf _ _ hc
+      · split at h <;> cases h
+
+theorem ruleNumberSuffixCapitalization_nf (env : Env) (src : List Char) (toks : List Tok) :
+    ruleNumberSuffixCapitalization env src toks ≠ .error .outOfFuel :=
+  collectE_nf _ _ fun t _ => numberSuffixCapTok_nf env src t
+
+theorem correctNumberSuffixTok_nf (env : Env) (src : List Char) (t : Tok) : correctNumberSuffixTok env src t ≠ .error .outOfFuel := by
+  intro h
+  simp only [correctNumberSuffixTok] at h
+  split at h
+  · cases h
+  · split at h <;> cases h
+
+theorem ruleCorrectNumberSuffix_nf (env : Env) (src : List Char) (toks : List Tok) :
+    ruleCorrectNumberSuffix env src toks ≠ .error .outOfFuel :=
+  collectE_nf _ _ fun t _ => correctNumberSuffixTok_nf env src t
+
+theorem ruleUnclosedQuotes_nf (env : Env) (src : List Char) (toks : List Tok) : ruleUnclosedQuotes env src toks ≠ .error .outOfFuel :=
+  collectE_nf _ _ fun t _ => by
+    intro h
+    simp only [unclosedQuoteTok] at h
+    split at h <;> cases h
+
+theorem modalIndex_nf (env : Env) (src : List Char) (m : List Tok) : modalIndex env src m ≠ .error .outOfFuel := by
+  intro h
+  simp only [modalIndex] at h
+  split at h
+  · cases h
+  · split at h
+    · split at h
+      · split at h
+        · rename_i e hc; cases h; exact getContent_nf _ _ hc
+        · repeat' split at h
+          all_goals cases h
+      · cases h
+    · cases h
+
+theorem modalOfMatch_nf (env : Env) (src : List Char) (m : List Tok) : modalOfMatch env src m ≠ .error .outOfFuel := by
+  intro h
+  simp only [modalOfMatch] at h
+  split at h
+  · rename_i e hc; cases h; exact modalIndex_nf _ _ _ hc
+  · cases h
+  · split at h
+    · rename_i e hc; cases h; exact sliceE_nf _ _ _ hc
+    · split at h
+      · cases h
+      · split at h
+        · cases h
+        · split at h
+          · rename_i e hc; cases h; exact getContent_nf _ _ hc
+          · split at h
+            · rename_i e hc; cases h; exact getContent_nf _ _ hc
+            · cases h
+
+theorem modalOfPat_nf : NF modalOfPat := by
+  have hModalOf : NF (seqPat [wordSetAtom modalWords, whitespaceAtom, anyCapAtom ['o', 'f']]) := by
+    apply seqPat_nf
+    intro q hq; simp only [List.mem_cons, List.mem_nil_iff, or_false] at hq
+    rcases hq with rfl | rfl | rfl
+    · exact wordSetAtom_nf _
+    · exact whitespaceAtom_nf
+    · exact anyCapAtom_nf _
+  have hCourse : NF (seqPat [whitespaceAtom, anyCapAtom ['c', 'o', 'u', 'r', 's', 'e']]) := by
+    apply seqPat_nf
+    intro q hq; simp only [List.mem_cons, List.mem_nil_iff, or_false] at hq
+    rcases hq with rfl | rfl
+    · exact whitespaceAtom_nf
+    · exact anyCapAtom_nf _
+  have hMight : NF (seqPat [kindAtom Kind.isWord, whitespaceAtom, anyCapAtom ['m', 'i', 'g', 'h', 't'],
+      whitespaceAtom, anyCapAtom ['o', 'f']]) := by
+    apply seqPat_nf
+    intro q hq; simp only [List.mem_cons, List.mem_nil_iff, or_false] at hq
+    rcases hq with rfl | rfl | rfl | rfl | rfl
+    · exact kindAtom_nf _
+    · exact whitespaceAtom_nf
+    · exact anyCapAtom_nf _
+    · exact whitespaceAtom_nf
+    · exact anyCapAtom_nf _
+  unfold modalOfPat
+  apply eitherPat_nf
+  intro q hq; simp only [List.mem_cons, List.mem_nil_iff, or_false] at hq
+  rcases hq with rfl | rfl | rfl | rfl
+  · apply seqPat_nf
+    intro q hq; simp only [List.mem_cons, List.mem_nil_iff, or_false] at hq
+    rcases hq with rfl | rfl
+    · exact hMight
+    · exact hCourse
+  · apply seqPat_nf
+    intro q hq; simp only [List.mem_cons, List.mem_nil_iff, or_false] at hq
+    rcases hq with rfl | rfl
+    · exact hModalOf
+    · exact hCourse
+  · exact hMight
+  · exact hModalOf
+
+theorem ruleModalOf_nf (env : Env) (src : List Char) (toks : List Tok) : ruleModalOf env src toks ≠ .error .outOfFuel :=
+  collectE_nf _ _ fun chunk _ => runOnChunkGo_nf _ modalOfPat_nf _ src (modalOfMatch_nf env src) chunk 0
+
+theorem anaPair_nf (env : Env) (src : List Char) (a b : Tok) : anaPair env src a b ≠ .error .outOfFuel := by
+  intro h
+  simp only [anaPair] at h
+  split at h
+  · rename_i e hc; cases h; exact getContent_nf _ _ hc
+  · split at h
+    · rename_i e hc; cases h; exact getContent_nf _ _ hc
+    · split at h
+      · cases h
+      · split at h <;> cases h
+
+theorem anaGo_nf (env : Env) (src : List Char) : ∀ (ts : List Tok) (prev : Option (Tok × Bool)),
+    anaGo env src prev ts ≠ .error .outOfFuel
+  | [], _ => by intro h; simp only [anaGo] at h; cases h
+  | t :: ts, prev => by
+    intro h
+    simp only [anaGo] at h
+    split at h
+    · split at h
+      · exact anaGo_nf env src ts _ h
+      · split at h
+        · rename_i e hc
+          cases h
+          split at hc
+          · cases hc
+          · exact anaPair_nf _ _ _ _ hc
+        · split at h
+          · rename_i e hc; cases h; exact anaGo_nf env src ts _ hc
+          · cases h
+    · exact anaGo_nf env src ts _ h
+
+theorem ruleAnA_nf (env : Env) (src : List Char) (toks : List Tok) : ruleAnA env src toks ≠ .error .outOfFuel :=
+  collectE_nf _ _ fun p _ => anaGo_nf env src p none
+
+theorem sentCapSentence_nf (env : Env) (src : List Char) (sent : List Tok) : sentCapSentence env src sent ≠ .error .outOfFuel := by
+  intro h
+  simp only [sentCapSentence] at h
+  split at h
+  · cases h
+  · split at h
+    · cases h
+    · split at h
+      · cases h
+      · split at h
+        · rename_i e hc; cases h; exact getContent_nf _ _ hc
+        · split at h
+          · cases h
+          · split at h <;> cases h
+
+theorem ruleSentenceCapitalization_nf (env : Env) (src : List Char) (toks : List Tok) :
+    ruleSentenceCapitalization env src toks ≠ .error .outOfFuel :=
+  collectE_nf _ _ fun par _ => by
+    intro h
+    simp only [sentCapParagraph] at h
+    split at h
+    · cases h
+    · exact collectE_nf _ _ (fun s _ => sentCapSentence_nf env src s) h
+
+end Harper.PatternRules
